@@ -26,7 +26,7 @@ HooksOfJ(js) == [h \in {js[i].id : i \in DOMAIN js} |->
                   LET x == js[CHOOSE i \in DOMAIN js : js[i].id = h] IN
                   [kind |-> x.kind, events |-> Range(x.events), weight |-> x.weight, pols |-> Range(x.pols)]]
 
-ManOfJ(jm) == [r \in DOMAIN jm |-> [kind |-> jm[r].kind, f1 |-> jm[r].f1, f2 |-> jm[r].f2, pol |-> jm[r].pol]]
+ManOfJ(jm) == [r \in DOMAIN jm |-> [kind |-> jm[r].kind, f1 |-> jm[r].f1, f2 |-> jm[r].f2, pol |-> jm[r].pol, ver |-> jm[r].ver]]
 
 RecOfJ(j) == [st |-> j.st, ch |-> j.chart, cfg |-> j.cfg, man |-> ManOfJ(j.man), hooks |-> HooksOfJ(j.hooks),
               body |-> j.rev, mand |-> j.mand]
@@ -180,7 +180,8 @@ P_C09_LoserClean ==
   (AtEnd /\ esum.u.kind \in {"install", "upgrade"} /\ ~esum.u.dry /\ esum.crs = {}) =>
      (~esum.ok /\ \A i \in DOMAIN esum.log : ~ResWriteM(esum.log[i]))
 P_C09_Quiescent == (\A p \in MonProc : ~sum[p].active) => C01_AtMostOneDeployed(S.store)
-P_C12_Disabled      == AtEnd => C12_Disabled(esum.log, DOMAIN DefsFor(esum, EPre, S), esum.u)
+\* (all hook objects of the release: an --atomic sub-operation runs another revision's hooks)
+P_C12_Disabled      == AtEnd => C12_Disabled(esum.log, HookIdsIn(EPre.store) \cup HookIdsIn(S.store) \cup DOMAIN DefsFor(esum, EPre, S), esum.u)
 
 -----------------------------------------------------------------------------
 (* Reporting: every check is evaluated in every observed state; a failing one is printed *)
